@@ -83,3 +83,35 @@ Theorem C10_glue_find_dispatch : forall x lk s fill,
 Proof. exact glue_find_dispatch. Qed.
 Print Assumptions C10_glue_find_dispatch.
 Close Scope string_scope.
+
+(** ---- the three two-pointer scans — `while` loops over explicit iterators — REGENERATED from sorted_array_utils.py as glue terms
+     (Gen/ScanGlue.v) and run with fuel by Model/GlueWhile.v, are the hand-written scans of Model/Search.v ---- *)
+From TW Require Import Model.GlueWhile Gen.ScanGlue Proofs.GlueScanProofs.
+Open Scope string_scope.
+Theorem C10_glue_find_lower : forall x lk fill fuel, (scan_fuel x lk <= fuel)%nat ->
+  wout_idx (wcall fuel scan_callf array_methf scan_functions "find_closest_lower_equal_element_indices_to_values"
+     [("x", VArr x); ("lookup", VArr lk); ("fill_not_valid", VBoolV fill)]) = find_lower x lk fill.
+Proof. exact glue_find_lower. Qed.
+Print Assumptions C10_glue_find_lower.
+
+Theorem C10_glue_find_higher : forall x lk fill fuel, (scan_fuel x lk <= fuel)%nat ->
+  wout_idx (wcall fuel scan_callf array_methf scan_functions "find_closest_higher_equal_element_indices_to_values"
+     [("x", VArr x); ("lookup", VArr lk); ("fill_not_valid", VBoolV fill)]) = find_higher x lk fill.
+Proof. exact glue_find_higher. Qed.
+Print Assumptions C10_glue_find_higher.
+
+Theorem C10_glue_find_closest : forall x lk fuel, (scan_fuel x lk <= fuel)%nat ->
+  wout_idx (wcall fuel scan_callf array_methf scan_functions "find_closest_lower_or_higher_element_indices_to_values"
+     [("x", VArr x); ("lookup", VArr lk)]) = find_closest x lk.
+Proof. exact glue_find_closest. Qed.
+Print Assumptions C10_glue_find_closest.
+
+(** fill_not_valid defaults to True *)
+Theorem C10_glue_scan_defaults : forall x lk fuel,
+  wcall fuel scan_callf array_methf scan_functions "find_closest_lower_equal_element_indices_to_values" [("x", VArr x); ("lookup", VArr lk)] =
+  wcall fuel scan_callf array_methf scan_functions "find_closest_lower_equal_element_indices_to_values" [("x", VArr x); ("lookup", VArr lk); ("fill_not_valid", VBoolV true)] /\
+  wcall fuel scan_callf array_methf scan_functions "find_closest_higher_equal_element_indices_to_values" [("x", VArr x); ("lookup", VArr lk)] =
+  wcall fuel scan_callf array_methf scan_functions "find_closest_higher_equal_element_indices_to_values" [("x", VArr x); ("lookup", VArr lk); ("fill_not_valid", VBoolV true)].
+Proof. exact glue_scan_defaults. Qed.
+Print Assumptions C10_glue_scan_defaults.
+Close Scope string_scope.
